@@ -43,7 +43,7 @@ def parseApp (s : String) : Option App :=
     let l ← natList l
     let m ← parseMods m
     if n ≤ 3 ∧ t < 1000 ∧ l.all (· < 8) ∧ l.length ≤ 4 ∧ m.length ≤ 4 ∧
-        (if n = 3 then f = 0 ∨ f = 2 else f ≤ 5 ∧ f ≠ 1) ∧
+        (if n = 3 then f = 0 ∨ f = 2 ∨ (f = 6 ∧ l ≠ []) else f ≤ 5 ∧ f ≠ 1) ∧
         -- keys ≥ 4 are real reverse_proxy handlers: only in the HTTP app, never "unknown"
         m.all (fun g => g.key < 4 ∨ (n = 3 ∧ g.fault ≠ 1)) then some ⟨n, t, f, l, m⟩ else none
   | _ => none
@@ -110,7 +110,10 @@ def parseOp (s : String) : Option Op :=
   | ["V", c, e] => do
     let c ← parseCfg c
     if c.top = 0 then pure (.validate c (← parseEnv e)) else none
-  | ["P", a, e] => do pure (.patch (← parseApp a) (← parseEnv e))
+  | ["P", a, e] => do
+    let a ← parseApp a
+    -- the phase-2 fault needs the tls/pki apps of a whole configuration next to the HTTP app
+    if a.fault = 6 then none else pure (.patch a (← parseEnv e))
   | ["D", n, e] => do
     let n ← n.toNat?
     if n ≤ 3 then pure (.del n (← parseEnv e)) else none
